@@ -160,7 +160,7 @@ func c09Exec(c *Ctx, rv c09Recv, calls []c09Call, count bool) {
 	snapshot := c09Key(orig, bit, false)
 	cs := c09Case{rv.Name, calls}
 	size := len(calls)*1000 + len(rv.Name)
-	flagCleared := false
+	flagCleared, replaced := false, false
 	for _, cl := range calls {
 		before := c09Key(orig, 0, false)
 		if count {
@@ -174,13 +174,22 @@ func c09Exec(c *Ctx, rv c09Recv, calls []c09Call, count bool) {
 		}
 		// a method that hands back its own type is fluent: the result is the receiver, refused call or
 		// not (whoever chains on continues with the same instance, not with an empty one)
-		if len(res) == 1 && res[0].Type() == reflect.TypeOf(x) && cl.Method != "Init" {
+		if len(res) == 1 && res[0].Type() == reflect.TypeOf(x) && cl.Method != "Init" && !replaced {
 			if dr, d0 := stackage.VerifDump(res[0].Interface()), stackage.VerifDump(orig); dr == nil || dr.Addr != d0.Addr {
 				c.Violation("fluent-result-is-not-the-receiver:"+cl.Method, desc+" returned an instance other than the receiver (a zero value or a copy): a chained call continues elsewhere", cs, size)
 			}
 		}
 		if flagCleared {
 			continue // the flag was legitimately cleared by an earlier call of this sequence
+		}
+		if replaced {
+			// the handle was re-initialised by an earlier Init: this call went to the NEW instance, which is
+			// none of the read-only one's business
+			if after := c09Key(orig, 0, false); after != before {
+				c.Violation("changed-through-replaced-handle:"+cl.Method, fmt.Sprintf("%s, called on the handle Init had re-initialised before, changed the read-only instance that handle used to refer to:\n before %s\n after  %s", desc, before, after), cs, size)
+				return
+			}
+			continue
 		}
 		switch cl.Method {
 		case "SetReadOnly", "ReadOnly":
@@ -213,8 +222,11 @@ func c09Exec(c *Ctx, rv c09Recv, calls []c09Call, count bool) {
 				return
 			}
 		case "Init":
-			// Condition.Init replaces the handle (documented exception); the original instance must be intact
-			pv.Elem().Set(reflect.ValueOf(orig))
+			// Condition.Init replaces the handle (documented exception); the original instance must be intact,
+			// now and whatever is done next through the re-initialised handle
+			if dn, d0 := stackage.VerifDump(pv.Elem().Interface()), stackage.VerifDump(orig); dn == nil || dn.Addr != d0.Addr {
+				replaced = true
+			}
 		}
 		if after := c09Key(orig, 0, false); after != before {
 			c.Violation("changed:"+cl.Method, fmt.Sprintf("%s changed a read-only instance:\n before %s\n after  %s", desc, before, after), cs, size)
@@ -225,7 +237,7 @@ func c09Exec(c *Ctx, rv c09Recv, calls []c09Call, count bool) {
 		}
 	}
 	// clearing the flag restores full mutability with the state as it was
-	if !flagCleared {
+	if !flagCleared || replaced {
 		callOpt(orig, "SetReadOnly", false)
 		if after := c09Key(orig, bit, false); after != snapshot {
 			c.Violation("state-after-clear", fmt.Sprintf("after clearing the flag the state differs from the one at the time it was set (receiver %s, calls %v):\n was %s\n now %s", rv.Name, callNames(calls), snapshot, after), cs, size)
@@ -248,6 +260,60 @@ func c09Exec(c *Ctx, rv c09Recv, calls []c09Call, count bool) {
 	if count {
 		c.Outcome(rv.Name)
 	}
+}
+
+// c09Sibling: a writable instance of the same type that shares what the USER owns with the read-only one
+// (the very same Auxiliary map, the same logger) goes through every call of the catalogue; the read-only
+// instance must answer and dump as before. (An Auxiliary map the user edits directly is the user's
+// business; a method of another instance emptying or replacing it is not.)
+func c09Sibling(c *Ctx, rv c09Recv) int {
+	n := 0
+	probe := rv.Mk()
+	calls := c09Calls(probe)
+	hasAux := false
+	switch tv := probe.(type) {
+	case stackage.Stack:
+		hasAux = tv.Auxiliary() != nil
+	case stackage.Condition:
+		hasAux = tv.Auxiliary() != nil
+	}
+	if !hasAux {
+		return 0
+	}
+	for _, cl := range calls {
+		x := rv.Mk()
+		var y any
+		var auxBefore string
+		switch tv := x.(type) {
+		case stackage.Stack:
+			y = newStackKind(tv.Kind()).Push("own").SetAuxiliary(tv.Auxiliary()).SetLogger(tv.Logger())
+			auxBefore = fmt.Sprint(map[string]any(tv.Auxiliary()))
+		case stackage.Condition:
+			y = stackage.Cond("own", stackage.Eq, "v").SetAuxiliary(tv.Auxiliary()).SetLogger(tv.Logger())
+			auxBefore = fmt.Sprint(map[string]any(tv.Auxiliary()))
+		}
+		pv := reflect.New(reflect.TypeOf(y))
+		pv.Elem().Set(reflect.ValueOf(y))
+		before := c09Key(x, 0, false)
+		c.Transitions.Add(1)
+		n++
+		desc := fmt.Sprintf("%s(%s) on a writable instance that was given the same Auxiliary map and logger as read-only %s", cl.Method, cl.Args, rv.Name)
+		cs := c09Case{rv.Name + " (sibling)", []c09Call{cl}}
+		if _, p := callMethod(pv, cl.Method, cl.args); p != "" {
+			continue // panics of writable instances are C08's subject
+		}
+		auxAfter := ""
+		switch tv := x.(type) {
+		case stackage.Stack:
+			auxAfter = fmt.Sprint(map[string]any(tv.Auxiliary()))
+		case stackage.Condition:
+			auxAfter = fmt.Sprint(map[string]any(tv.Auxiliary()))
+		}
+		if after := c09Key(x, 0, false); after != before || auxAfter != auxBefore {
+			c.Violation("changed-through-sibling:"+cl.Method, fmt.Sprintf("%s changed the read-only instance (auxiliary content %s -> %s):\n before %s\n after  %s", desc, auxBefore, auxAfter, before, after), cs, len(desc))
+		}
+	}
+	return n
 }
 
 // c09AsArgument hands a read-only Stack to methods of OTHER instances: it must not change either.
@@ -515,9 +581,30 @@ func init() {
 			}
 			c09Exec(c, jobs[i].rv, jobs[i].calls, true)
 		})
+		nSib, nInit := 0, 0
 		for _, rv := range recvs {
 			c09AsArgument(c, rv)
+			nSib += c09Sibling(c, rv)
+			if strings.HasPrefix(rv.Name, "Condition/") {
+				// Init, then every call through the re-initialised handle
+				calls := c09Calls(rv.Mk())
+				var initCall *c09Call
+				for i := range calls {
+					if calls[i].Method == "Init" {
+						initCall = &calls[i]
+						break
+					}
+				}
+				if initCall != nil {
+					for _, cl := range calls {
+						c09Exec(c, rv, []c09Call{*initCall, cl}, false)
+						nInit++
+					}
+				}
+			}
 		}
+		c.Bound["calls_on_writable_siblings_sharing_auxiliary_and_logger"] = nSib
+		c.Bound["calls_through_a_handle_re_initialised_by_Init"] = nInit
 		c.Bound["package_function_calls_beside_read_only_instances"] = c09PackageFuncs(c)
 		c.States.Store(int64(len(jobs)))
 		c.Traces.Store(int64(len(jobs)))
@@ -539,6 +626,10 @@ func init() {
 		var cs c09Case
 		json.Unmarshal(raw, &cs)
 		for _, rv := range append(c09Receivers(&Ctx{Tier: "thorough"}), c09Receivers(&Ctx{Tier: "quick"})...) {
+			if rv.Name+" (sibling)" == cs.Recv {
+				c09Sibling(c, rv)
+				return
+			}
 			if rv.Name != cs.Recv {
 				continue
 			}
